@@ -56,11 +56,13 @@ def add_time_variable(ifileo, key):
     if ifileo.TSTEP == 0:
         tmpseconds = 0
     else:
-        tmp = ('%06d' % ifileo.TSTEP)
-        htmp = tmp[:2]
-        mtmp = tmp[2:4]
-        stmp = tmp[4:]
-        tmpseconds = 3600 * int(htmp) + 60 * int(mtmp) + int(stmp)
+        # TSTEP is HHMMSS with as many hour digits as needed (1000000 is
+        # 100 hours), so split it arithmetically, not by character position
+        tstep = abs(int(ifileo.TSTEP))
+        tmpseconds = (3600 * (tstep // 10000) + 60 * (tstep // 100 % 100) +
+                      tstep % 100)
+        if ifileo.TSTEP < 0:
+            tmpseconds = -tmpseconds
 
     time_unit = "seconds since %s" % (rdate.strftime('%Y-%m-%d %H:%M:%S%z'),)
     if 'TFLAG' in ifileo.variables:
